@@ -60,7 +60,7 @@ SHORT_ALPHA = [u'&', u'<', u'>', u'"', u"'", u'\r', u'\n', u'\t', u'\x01', u'￾
 
 
 def short_strings(chk):
-    n = 3 if chk.tier == 'quick' else 4
+    n = 3 if chk.tier == 'quick' else 5
     for k in range(0, n + 1):
         for tup in itertools.product(SHORT_ALPHA, repeat=k):
             yield u''.join(tup)
@@ -121,7 +121,7 @@ def strings_check(chk, drv, fs, want_identity):
 
 def trees_check(chk, drv, want_identity, n=None, discouraged=False):
     """generated trees: toXml vs printNode∘rawRoot byte for byte; reference parser vs expat; the oracle"""
-    n = n or (1500 if chk.tier == 'quick' else 20000)
+    n = n or (1500 if chk.tier == 'quick' else 60000)
     rng = chk.rng
     lines = []; metas = []
     for i in range(n):
@@ -254,7 +254,7 @@ def part_models(d):
 
 
 def documents_check(chk, want_identity, n=None, drv=None):
-    n = n or (40 if chk.tier == 'quick' else 400)
+    n = n or (40 if chk.tier == 'quick' else 1000)
     for i in range(n):
         try:
             d = rand_document(chk.rng)
